@@ -61,7 +61,7 @@ def run_core(ctx, mode):
         ctx.mc("MC_Semantics", {"Mode": '"eff"', "Depth": 1, "NVals": 2}, ["BadWhenAlways"], expect_violation=True)
     # ---------------------------------------------------------------- (G) spec -> code
     gen_file = ctx.work / "gen_cases.ndjson"
-    ctx.gen("Gen_Core", {"Mode": f'"{mode}"', "Depth": 1 if quick else 2, "NVals": 2}, gen_file)
+    ctx.gen("Gen_Core", {"Mode": f'"{mode}"', "Depth": 2, "NVals": 2}, gen_file)
     cases = [json.loads(x) for x in open(gen_file)]
     if quick:
         cases = rng.sample(cases, min(len(cases), 90))
